@@ -7,4 +7,4 @@ Extraction "c12_model.ml"
   pages_announced pages_announced_old serve_page walk honest_with honest delivered delivered_old real_cap good_count_old MAX_VALUE_PAGES
   public_ip decode_compact valid_compact
   f_init fstep frun total_pages
-  guess_udp producer_action find_value_reply_size MSG_SIZE_LIMIT.
+  guess_udp producer_action find_value_reply_size MSG_SIZE_LIMIT store_port_ok pq_enqueue pq_pop_due.
